@@ -7,27 +7,78 @@ namespace KinModel.DocValidate
 
 /-- kinds whose `Validate` method must call `validateExtensions` unconditionally -/
 def extKinds : List Kind :=
-  [.root, .components, .info, .contact, .license, .paths, .pathItem, .operation, .parameter, .mediaType,
+  [.root, .components, .info, .contact, .license, .paths, .pathItem, .operation, .parameter, .header, .mediaType,
    .requestBody, .responses, .response, .schema, .example, .link, .callback, .securityScheme, .oauthFlows,
    .oauthFlow, .server, .serverVar, .tag, .externalDocs, .encoding, .discriminator, .xml]
 
-/-- what the theorems need of the table (decided on the regenerated table in Props/C04.lean) -/
+/-- kinds that carry `example` / `examples` next to a `schema` -/
+def exampleKinds : List Kind := [.parameter, .mediaType, .header]
+
+/-- what the theorems need of the table (decided on the regenerated table in Props/C04.lean): every method
+of `extKinds` calls `validateExtensions` under every option set (on some path: `alwaysHolds`); defaults / examples are checked, and the example
+objects visited, exactly unless the option that names them is set; a reference wrapper validates its value;
+the only errors dropped are those of the headers of an encoding object; every component name is checked -/
 def TableOK (T : Table) : Bool :=
-  extKinds.all (fun k => (rowsFor T.checks k "extensions").contains []) &&
-  (rowsFor T.checks .header "extensions" == []) &&
-  (rowsFor T.checks .schema "default" == [["-schemaDefaultsValidationDisabled"]]) &&
-  (rowsFor T.checks .schema "example" == [["-examplesValidationDisabled"]]) &&
-  (rowsFor T.checks .parameter "example" == [["-examplesValidationDisabled"]]) &&
-  (rowsFor T.checks .parameter "examples" == [["-examplesValidationDisabled"]]) &&
-  (rowsFor T.checks .mediaType "example" == [["-examplesValidationDisabled"]]) &&
-  (rowsFor T.checks .mediaType "examples" == [["-examplesValidationDisabled"]]) &&
+  extKinds.all (fun k => alwaysHolds (rowsFor T.checks k "extensions")) &&
+  holdsAs (rowsFor T.checks .schema "default") (fun _ d _ _ => !d) &&
+  holdsAs (rowsFor T.checks .schema "example") (fun e _ _ _ => !e) &&
+  exampleKinds.all (fun k =>
+    holdsAs (rowsFor T.checks k "example") (fun e _ _ _ => !e) &&
+    holdsAs (rowsFor T.checks k "examples") (fun e _ _ x => !e && !(k == .parameter && x)) &&
+    holdsAs (rowsFor T.edges k "examples") (fun e _ s x => !e && s && !(k == .parameter && x))) &&
+  (rowsFor T.edges .exampleRef "value").contains [] &&
+  (T.swallows == [(.encoding, "identifier:headers", []), (.encoding, "headers", [])]) &&
   componentPositions.all (fun p => (rowsFor T.checks .components ("identifier:" ++ p)).contains [])
 
-theorem anyHolds_of_nil (o : Opts) (gss : List (List String)) (h : gss.contains [] = true) :
-    anyHolds o gss = true := by
+structure TableFacts (T : Table) : Prop where
+  ext : ∀ k ∈ extKinds, alwaysHolds (rowsFor T.checks k "extensions") = true
+  sDefault : holdsAs (rowsFor T.checks .schema "default") (fun _ d _ _ => !d) = true
+  sExample : holdsAs (rowsFor T.checks .schema "example") (fun e _ _ _ => !e) = true
+  ex : ∀ k ∈ exampleKinds,
+    holdsAs (rowsFor T.checks k "example") (fun e _ _ _ => !e) = true ∧
+    holdsAs (rowsFor T.checks k "examples") (fun e _ _ x => !e && !(k == .parameter && x)) = true ∧
+    holdsAs (rowsFor T.edges k "examples") (fun e _ s x => !e && s && !(k == .parameter && x)) = true
+  exRef : (rowsFor T.edges .exampleRef "value").contains [] = true
+  swallows : T.swallows = [(.encoding, "identifier:headers", []), (.encoding, "headers", [])]
+  ident : ∀ p ∈ componentPositions, (rowsFor T.checks .components ("identifier:" ++ p)).contains [] = true
+
+theorem tableFacts (T : Table) (hT : TableOK T = true) : TableFacts T := by
+  unfold TableOK at hT
+  simp only [Bool.and_eq_true, List.all_eq_true, beq_iff_eq] at hT
+  obtain ⟨⟨⟨⟨⟨⟨h1, h2⟩, h3⟩, h4⟩, h5⟩, h6⟩, h7⟩ := hT
+  exact ⟨h1, h2, h3, fun k hk => ⟨(h4 k hk).1.1, (h4 k hk).1.2, (h4 k hk).2⟩, h5, h6, h7⟩
+
+theorem anyHolds_of_nil (o : Opts) (a : Attrs) (gss : List (List String)) (h : gss.contains [] = true) :
+    anyHolds o a gss = true := by
   unfold anyHolds
   rw [List.any_eq_true]
   exact ⟨[], by simpa using h, by simp [guardsHold]⟩
+
+theorem mkA_schema (s x : Bool) : (mkA s x).flag "hasSchema" = s := by cases s <;> cases x <;> decide
+theorem mkA_example (s x : Bool) : (mkA s x).flag "hasExample" = x := by cases s <;> cases x <;> decide
+
+theorem litHolds_four (o : Opts) (a : Attrs) (l : String) :
+    litHolds o a l = litHolds (mkO o.exDisabled o.defDisabled) (mkA (a.flag "hasSchema") (a.flag "hasExample")) l := by
+  unfold litHolds; split <;> simp [mkO, mkA_schema, mkA_example]
+
+theorem anyHolds_four (o : Opts) (a : Attrs) (gss : List (List String)) :
+    anyHolds o a gss = anyHolds (mkO o.exDisabled o.defDisabled) (mkA (a.flag "hasSchema") (a.flag "hasExample")) gss := by
+  have hl : litHolds o a = litHolds (mkO o.exDisabled o.defDisabled) (mkA (a.flag "hasSchema") (a.flag "hasExample")) :=
+    funext (litHolds_four o a)
+  unfold anyHolds guardsHold
+  rw [hl]
+
+/-- what `holdsAs` decides over the sixteen valuations holds for every option set and every node -/
+theorem anyHolds_as (o : Opts) (a : Attrs) (gss : List (List String)) (f : Bool → Bool → Bool → Bool → Bool)
+    (h : holdsAs gss f = true) :
+    anyHolds o a gss = f o.exDisabled o.defDisabled (a.flag "hasSchema") (a.flag "hasExample") := by
+  rw [anyHolds_four]
+  unfold holdsAs at h
+  simp only [List.all_cons, List.all_nil, Bool.and_true, Bool.and_eq_true, beq_iff_eq] at h
+  cases o.exDisabled <;> cases o.defDisabled <;> cases a.flag "hasSchema" <;> cases a.flag "hasExample" <;> simp_all
+
+theorem anyHolds_of_always (o : Opts) (a : Attrs) (gss : List (List String)) (h : alwaysHolds gss = true) :
+    anyHolds o a gss = true := anyHolds_as o a gss _ h
 
 theorem all_when (o : Opts) (c : Bool) (r k : String) :
     ((when c r k).all fun v => !enabled o v) = (!c || !enabled o ⟨r, k⟩) := by
@@ -48,11 +99,9 @@ namespace KinModel.DocValidate
 
 theorem checkExt_eq (T : Table) (o : Opts) (d : Doc) (hT : TableOK T = true) (hk : d.kind ∈ extKinds) :
     checkExt T o d = extKeysOK o d.attrs.exts := by
-  unfold TableOK at hT
-  simp only [Bool.and_eq_true, List.all_eq_true] at hT
-  have h := hT.1.1.1.1.1.1.1.1 d.kind hk
+  have h := (tableFacts T hT).ext d.kind hk
   unfold checkExt hasCheck
-  rw [anyHolds_of_nil o _ h]; rfl
+  rw [anyHolds_of_always o _ _ h]; rfl
 
 def specialRules : List String :=
   ["extraField", "refSibling", "refExtension", "exampleMismatch", "defaultMismatch", "unknownFormat", "badPattern"]
@@ -69,30 +118,56 @@ theorem all_congr_mem {α} (l : List α) (f g : α → Bool) (h : ∀ x ∈ l, f
     simp only [List.all_cons]
     rw [h x (by simp), ih (fun y hy => h y (by simp [hy]))]
 
+theorem ite_false_left (c r : Bool) : (if c = true then false else r) = (!c && r) := by cases c <;> rfl
+
+theorem securitySchemeViols_all (o : Opts) (d : Doc) :
+    ((securitySchemeViols d).all fun v => !enabled o v) = securitySchemeShapeOK d := by
+  unfold securitySchemeViols securitySchemeShapeOK
+  simp (disch := decide) only [List.all_append, all_when, enabled_plain, ite_false_left]
+  simp [Bool.and_assoc]
+
+theorem oauthFlowViols_all (o : Opts) (d : Doc) :
+    ((oauthFlowViols d).all fun v => !enabled o v) = oauthFlowShapeOK d := by
+  unfold oauthFlowViols oauthFlowShapeOK
+  simp (disch := decide) only [List.all_append, all_when, enabled_plain, ite_false_left]
+  generalize (decide (d.attrs.str "flowType" = "implicit") || decide (d.attrs.str "flowType" = "authorizationCode")) = A
+  generalize (decide (d.attrs.str "flowType" = "password") || decide (d.attrs.str "flowType" = "clientCredentials") ||
+    decide (d.attrs.str "flowType" = "authorizationCode")) = B
+  by_cases h1 : d.attrs.str "authorizationUrl" = "" <;> by_cases h2 : d.attrs.str "tokenUrl" = "" <;>
+    cases A <;> cases B <;> cases d.attrs.flag "hasScopes" <;> simp [h1, h2]
+
+theorem serverViols_all (o : Opts) (d : Doc) :
+    ((serverViols d).all fun v => !enabled o v) = serverShapeOK d := by
+  unfold serverViols serverShapeOK
+  simp (disch := decide) only [List.all_append, all_when, enabled_plain, ite_false_left]
+  simp [Bool.and_assoc]
+
 /-- kinds whose local checks are a plain cascade ending in `validateExtensions` -/
 def plainExtKinds : List Kind :=
   [.root, .info, .contact, .license, .pathItem, .operation, .requestBody, .responses, .response, .example, .link,
-   .callback, .oauthFlows, .serverVar, .tag, .externalDocs, .encoding, .discriminator, .xml,
+   .callback, .oauthFlows, .serverVar, .tag, .externalDocs, .discriminator, .xml,
    .securityScheme, .oauthFlow, .server]
 
-theorem localOK_plainExt (T : Table) (o : Opts) (k : Kind) (a : Attrs) (kids : List (String × Doc)) (hT : TableOK T = true)
-    (hk : k ∈ plainExtKinds) :
-    localOK T o (.node k a kids) = rulesOK o (.node k a kids) := by
+theorem localOK_plainExt (T : Table) (o : Opts) (k : Kind) (a : Attrs) (kids : List (String × Doc)) (vs : List Bool)
+    (hT : TableOK T = true) (hk : k ∈ plainExtKinds) :
+    localOK T o (.node k a kids) vs = rulesOK o (.node k a kids) := by
   have hx : k ∈ extKinds → checkExt T o (.node k a kids) = extKeysOK o a.exts :=
     fun h => checkExt_eq T o (.node k a kids) hT h
   simp only [plainExtKinds, List.mem_cons, List.not_mem_nil, or_false] at hk
-  rcases hk with rfl | rfl | rfl | rfl | rfl | rfl | rfl | rfl | rfl | rfl | rfl | rfl | rfl | rfl | rfl | rfl | rfl | rfl | rfl | rfl | rfl | rfl
+  rcases hk with rfl | rfl | rfl | rfl | rfl | rfl | rfl | rfl | rfl | rfl | rfl | rfl | rfl | rfl | rfl | rfl | rfl | rfl | rfl | rfl | rfl
   all_goals
     (have hx' := hx (by simp [extKinds])
      simp (disch := decide) only [localOK, rulesOK, violations, Doc.kind, Doc.attrs, List.all_append, all_when, extra_all, hx',
-       enabled_plain, securitySchemeOKCode, oauthFlowOKCode, serverOKCode]
+       enabled_plain, securitySchemeOKCode, oauthFlowOKCode, serverOKCode, securitySchemeViols_all, oauthFlowViols_all,
+       serverViols_all]
      try ((repeat' split) <;> simp_all <;> grind))
 
 /-- kinds without local checks -/
 def trivialKinds : List Kind := [.content, .securityReqs, .securityReq, .servers, .tags]
 
-theorem localOK_trivial (T : Table) (o : Opts) (k : Kind) (a : Attrs) (kids : List (String × Doc)) (hk : k ∈ trivialKinds) :
-    localOK T o (.node k a kids) = rulesOK o (.node k a kids) := by
+theorem localOK_trivial (T : Table) (o : Opts) (k : Kind) (a : Attrs) (kids : List (String × Doc)) (vs : List Bool)
+    (hk : k ∈ trivialKinds) :
+    localOK T o (.node k a kids) vs = rulesOK o (.node k a kids) := by
   simp only [trivialKinds, List.mem_cons, List.not_mem_nil, or_false] at hk
   rcases hk with rfl | rfl | rfl | rfl | rfl <;> simp [localOK, rulesOK, violations, Doc.kind]
 
